@@ -107,12 +107,12 @@ def classify_literal(t, v):
     if not (isinstance(t, tuple) and t and t[0] == 'cmp' and t[1] == 'le'):
         return None
     a, b = t[2], t[3]
-    if has_call(a, ('Instant::checked_add',)):
+    if has_call(a, ('::checked_add',)):
         ks = ts_kind(a)
         cfg = 'ttl' if has_field(a, ('time_to_live',)) else ('tti' if has_field(a, ('time_to_idle',)) else None)
         return {'what': 'deadline', 'ts': ks, 'cfg': cfg, 'now_is_clock': is_clock(b), 'now': b, 'entries': ts_entry(a),
                 'state': 'expired' if v else 'not-expired', 'shape': 'deadline <= now'}
-    if has_call(b, ('Instant::checked_add',)):
+    if has_call(b, ('::checked_add',)):
         # le(now, D): comes from `D < now` / `now >= D`... i.e. lt(D, now)==not v: a strict deadline
         return {'what': 'deadline-strict', 'ts': ts_kind(b), 'cfg': None, 'now_is_clock': is_clock(a), 'now': a, 'entries': ts_entry(b),
                 'state': 'not-expired' if v else 'expired', 'shape': 'deadline < now (exclusive: wrong boundary)'}
@@ -168,7 +168,7 @@ class LookupAnalysis:
             if (ctx.prog.reachable_from([n]) & R_.move) or any(x in CHAN_SEND for y in ctx.prog.reachable_from([n]) for x in R_.ext_calls.get(y, ())):
                 return False
             return None
-        sx = ctx.symex(inline_depth=5, inline_pred=pol, loop_visits=1 if 'Iterator' in nid else 2)
+        sx = ctx.symex(inline_depth=8, inline_pred=pol, loop_visits=1 if 'Iterator' in nid else 2)
         try:
             self.paths = [p for p in sx.run(nid) if not p.diverged]
         except PathLimit:
